@@ -13,15 +13,17 @@ Section Machine.
   Context {K : Type} (N : Num K).
   Local Notation C := (Cplx K).
   Variable rm_fixed : bool.        (* false: pinned remove-while-iterating; true: repaired loop *)
+  Variable bx_fixed : bool.        (* false: open boxes + area stop; true: closed boxes + extent stop *)
+  Variable mg_fixed : bool.        (* true: one solution per group of neighbouring cells *)
   Variable bbox : list C -> box (K:=K).
-  Variables tol tol_deC : K.
+  Variables tol tol_deC ext : K.
   Variable bez1 : list C.
 
-  Local Notation boxes_ok := (boxes_ok N bbox).
-  Local Notation small := (small N bbox tol_deC).
-  Local Notation level_loop := (level_loop N bbox tol tol_deC bez1).
-  Local Notation level_loop_fixed := (level_loop_fixed N bbox tol tol_deC bez1).
-  Local Notation level := (level N rm_fixed bbox tol tol_deC bez1).
+  Local Notation boxes_ok := (boxes_ok N bx_fixed bbox).
+  Local Notation small := (small N bx_fixed bbox tol_deC ext).
+  Local Notation level_loop := (level_loop N bx_fixed bbox tol tol_deC ext bez1).
+  Local Notation level_loop_fixed := (level_loop_fixed N bx_fixed bbox tol tol_deC ext bez1).
+  Local Notation level := (level N rm_fixed bx_fixed bbox tol tol_deC ext bez1).
 
   (* ---------------- list surgery ---------------- *)
   Lemma remove_nth_incl {A} n (l : list A) x : In x (remove_nth n l) -> In x l.
@@ -292,13 +294,16 @@ Section Machine.
   Definition pair_ok (k : nat) (p : bpair (K:=K)) : Prop :=
     sub_of N bez1 (bp1 p) (bt1 p) k /\ sub_of N bez2 (bp2 p) (bt2 p) k.
 
-  (* what a reported pair is guaranteed to be *)
+  (* what a reported pair is guaranteed to be: the centre pair of two sub-curves (k halvings)
+     whose boxes intersect and are "small" in the sense of the variant *)
   Definition witnessed (tt : K * K) : Prop :=
     exists b1 b2 k,
       sub_of N bez1 b1 (fst tt) k /\ sub_of N bez2 b2 (snd tt) k
-      /\ boxes_intersect N (bbox b1) (bbox b2) = true
-      /\ ltb N (box_area N (bbox b1)) tol_deC = true
-      /\ ltb N (box_area N (bbox b2)) tol_deC = true.
+      /\ if bx_fixed
+         then boxes_intersect_closed N (bbox b1) (bbox b2) = true
+              /\ ltb N (box_extent N (bbox b1)) ext = true /\ ltb N (box_extent N (bbox b2)) ext = true
+         else boxes_intersect N (bbox b1) (bbox b2) = true
+              /\ ltb N (box_area N (bbox b1)) tol_deC = true /\ ltb N (box_area N (bbox b2)) tol_deC = true.
 
   Lemma children_ok k p q : pair_ok k p -> In q (children N (npow N (half N) (k + 2)) p) -> pair_ok (S k) q.
   Proof.
@@ -313,18 +318,19 @@ Section Machine.
       first [apply sub_left; assumption | apply sub_right; assumption].
   Qed.
 
-  Lemma bi_levels_witness n k l out seen res :
+  Lemma bi_levels_witness n k l out hs seen res hs' :
     (forall p, In p l -> pair_ok k p) -> (forall tt, In tt out -> witnessed tt) ->
-    bi_levels N rm_fixed bbox tol tol_deC bez1 n k l out seen = IOk res ->
+    bi_levels N rm_fixed bx_fixed bbox tol tol_deC ext bez1 n k l out hs seen = IOk (res, hs') ->
     forall tt, In tt res -> witnessed tt.
   Proof.
-    revert k l out seen. induction n as [|n IH]; intros k l out seen Hl Ho; cbn; [discriminate|].
+    revert k l out hs seen. induction n as [|n IH]; intros k l out hs seen Hl Ho; cbn; [discriminate|].
     destruct l as [|p0 l0].
-    { intros E; injection E as <-. exact Ho. }
+    { intros E; injection E as <- _. exact Ho. }
     set (l := p0 :: l0) in *.
     assert (Hrep : forall p, pair_ok k p -> boxes_ok p = true -> small p = true -> witnessed (bt1 p, bt2 p)).
     { intros p [H1 H2] Hb Hs. exists (bp1 p), (bp2 p), k. cbn [fst snd].
-      unfold Isect.small in Hs. apply andb_prop in Hs. destruct Hs. repeat split; auto. }
+      unfold Isect.small in Hs. unfold Isect.boxes_ok in Hb. split; [exact H1|split; [exact H2|]].
+      destruct bx_fixed; apply andb_prop in Hs; destruct Hs; repeat split; auto. }
     assert (I0 : inv (pair_ok (S k)) witnessed (mkLS [] out seen)).
     { split; cbn; auto. intros q []. }
     pose proof (@level_inv (pair_ok k) (pair_ok (S k)) witnessed (npow N (half N) (k + 2))
@@ -332,14 +338,64 @@ Section Machine.
     intros E. eapply IH; [| |exact E]; assumption.
   Qed.
 
+  (* merging returns members of what was found *)
+  Local Notation merge_into := (merge_into N).
+  Definition all_in (P : sol (K:=K) -> Prop) (groups : list (list (sol (K:=K)))) : Prop :=
+    forall g, In g groups -> forall x, In x g -> P x.
+  Lemma merge_into_all P f groups : all_in P groups -> P f -> all_in P (merge_into f groups).
+  Proof.
+    induction groups as [|g r IH]; intros Ha Hf; cbn.
+    - intros g' [<-|[]] x [<-|[]]. exact Hf.
+    - destruct (is_hit N f g).
+      + intros g' [<-|Hg] x Hx.
+        * apply in_app_or in Hx. destruct Hx as [Hx|Hx]; [apply (Ha g (or_introl eq_refl)); exact Hx|].
+          cbn in Hx. destruct Hx as [<-|Hx]; [exact Hf|].
+          apply in_concat in Hx. destruct Hx as [g2 [Hg2 Hx]]. apply filter_In in Hg2.
+          apply (Ha g2 (or_intror (proj1 Hg2))); exact Hx.
+        * apply filter_In in Hg. apply (Ha g' (or_intror (proj1 Hg))); exact Hx.
+      + intros g' [<-|Hg] x Hx.
+        * apply (Ha g (or_introl eq_refl)); exact Hx.
+        * apply (IH (fun g0 H0 => Ha g0 (or_intror H0)) Hf g' Hg x Hx).
+  Qed.
+  Lemma best_of_in bz cur g : best_of N bez1 bz cur g = cur \/ In (best_of N bez1 bz cur g) g.
+  Proof.
+    revert cur. induction g as [|f r IH]; intros cur; cbn; [left; reflexivity|].
+    destruct (ltb N (sol_resid2 N bez1 bz f) (sol_resid2 N bez1 bz cur)).
+    - destruct (IH f) as [->|H]; [right; left; reflexivity|right; right; exact H].
+    - destruct (IH cur) as [->|H]; [left; reflexivity|right; right; exact H].
+  Qed.
+  Lemma merge_solutions_incl found tt :
+    In tt (merge_solutions N bez1 bez2 found) -> exists h, In (tt, h) found.
+  Proof.
+    unfold merge_solutions. intros H. apply in_flat_map in H. destruct H as [g [Hg Ht]].
+    assert (A : all_in (fun x => In x found) (fold_left (fun gs f => merge_into f gs) found [])).
+    { assert (G : forall l gs, all_in (fun x => In x found) gs -> incl l found ->
+                  all_in (fun x => In x found) (fold_left (fun gs f => merge_into f gs) l gs)).
+      { induction l as [|f l IHl]; intros gs Hgs Hi; cbn; [exact Hgs|].
+        apply IHl; [apply merge_into_all; [exact Hgs|apply Hi; left; reflexivity]|].
+        intros x Hx. apply Hi. right; exact Hx. }
+      apply G; [intros g0 []|apply incl_refl]. }
+    destruct g as [|f r]; [destruct Ht|]. destruct Ht as [<-|[]].
+    destruct (best_of_in bez2 f r) as [E|E].
+    - rewrite E. destruct f as [tt0 h]. exists h. apply (A _ Hg). left; reflexivity.
+    - destruct (best_of N bez1 bez2 f r) as [tt0 h] eqn:Eb. exists h. apply (A _ Hg). right. exact E.
+  Qed.
+
   (* C11_subdiv_witness *)
   Theorem subdiv_witness maxits res :
-    bezier_intersections N rm_fixed bbox tol tol_deC bez1 maxits bez2 = IOk res ->
+    bezier_intersections N rm_fixed bx_fixed mg_fixed bbox tol tol_deC ext bez1 maxits bez2 = IOk res ->
     forall tt, In tt res -> witnessed tt.
   Proof.
-    unfold bezier_intersections. apply bi_levels_witness.
-    - intros p [<-|[]]. split; cbn; apply sub_root.
-    - intros tt [].
+    unfold bezier_intersections.
+    destruct (bi_levels N rm_fixed bx_fixed bbox tol tol_deC ext bez1 maxits 0
+                [mkBP bez1 bez2 (half N) (half N)] [] [] []) as [[out hs]| | |] eqn:E; try discriminate.
+    intros R; injection R as <-. intros tt Ht.
+    assert (W : forall tt, In tt out -> witnessed tt).
+    { eapply bi_levels_witness; [| |exact E].
+      - intros p [<-|[]]. split; cbn; apply sub_root.
+      - intros t0 []. }
+    destruct mg_fixed; [|apply W; exact Ht].
+    apply merge_solutions_incl in Ht. destruct Ht as [h Hh]. apply in_combine_l in Hh. apply W; exact Hh.
   Qed.
 End Machine.
 
@@ -438,6 +494,11 @@ Section PathFacts.
   Variable seg_point : seg K -> K -> C.
   Variable tol : K.
   Variable idx_fixed : bool.     (* false: T from list.index (pinned); true: from the position (repair) *)
+  Variable jd_fixed : bool.      (* false: joint de-dup by point; true: by point and place on both paths *)
+  Variables plen1 plen2 eps9 : K.
+  Local Notation dedup_joint := (dedup_joint N tol jd_fixed plen1 plen2 eps9).
+  Local Notation redundant := (redundant N tol jd_fixed plen1 plen2 eps9).
+  Local Notation path_intersect := (path_intersect N seg_isect seg_point tol idx_fixed jd_fixed plen1 plen2 eps9).
 
   Local Notation collect := (collect N seg_isect idx_fixed).
   Local Notation pos_of := (pos_of N idx_fixed).
@@ -502,8 +563,8 @@ Section PathFacts.
     - right. eapply IH; eauto.
   Qed.
 
-  Lemma dedup_joint_incl {A} seen (l : list (C * A)) x :
-    In x (dedup_joint N tol seen l) -> In x (map snd l).
+  Lemma dedup_joint_incl {A} seen (l : list (jkey (K:=K) * A)) x :
+    In x (dedup_joint seen l) -> In x (map snd l).
   Proof.
     revert seen; induction l as [|[p a] l IH]; intros seen; cbn; auto.
     destruct (existsb _ seen); cbn; intros H.
@@ -511,17 +572,20 @@ Section PathFacts.
     - destruct H as [H|H]; auto. right. eapply IH; eauto.
   Qed.
 
-  (* an entry whose point is not within tol of any earlier point is kept *)
+  (* an entry that is not redundant with any earlier one is kept; points at least tol apart
+     are never redundant, in either variant *)
   Definition far (p q : C) : Prop := cabs_lt N (csub N q p) tol = false.
-  Lemma dedup_joint_keeps_all {A} seen (l : list (C * A)) :
-    (forall q p, In q seen -> In p (map fst l) -> far p q) ->
-    ForallOrdPairs (fun a b => far (fst b) (fst a)) l ->
-    dedup_joint N tol seen l = map snd l.
+  Lemma far_not_redundant (q p : jkey (K:=K)) : far (fst (fst p)) (fst (fst q)) -> redundant q p = false.
+  Proof. unfold far, Isect.redundant. intros ->. reflexivity. Qed.
+  Lemma dedup_joint_keeps_all {A} seen (l : list (jkey (K:=K) * A)) :
+    (forall q p, In q seen -> In p (map fst l) -> redundant q p = false) ->
+    ForallOrdPairs (fun a b => redundant (fst a) (fst b) = false) l ->
+    dedup_joint seen l = map snd l.
   Proof.
     revert seen; induction l as [|[p a] l IH]; intros seen Hs Hl; cbn; auto.
-    assert (E : existsb (fun q => cabs_lt N (csub N q p) tol) seen = false).
+    assert (E : existsb (fun q => redundant q p) seen = false).
     { apply not_true_is_false. intros H. apply existsb_exists in H. destruct H as [q [Hq Hc]].
-      specialize (Hs q p Hq (or_introl eq_refl)). unfold far in Hs. congruence. }
+      specialize (Hs q p Hq (or_introl eq_refl)). congruence. }
     rewrite E. f_equal. inversion Hl as [|? ? Hh Ht]; subst. apply IH; auto.
     intros q p' Hq Hp'. apply in_app_or in Hq. destruct Hq as [Hq|[<-|[]]].
     - apply Hs; auto. right; assumption.
@@ -531,13 +595,13 @@ Section PathFacts.
 
   (* C11_path_coherent (structure) *)
   Theorem path_intersect_sound p1 lens1 p2 lens2 res :
-    path_intersect N seg_isect seg_point tol idx_fixed p1 lens1 p2 lens2 = IOk res ->
+    path_intersect p1 lens1 p2 lens2 = IOk res ->
     forall e, In e res ->
     exists i j s1 s2 t1 t2 l,
       nth_error p1 i = Some s1 /\ nth_error p2 j = Some s2 /\ seg_isect s1 s2 = IOk l /\ In (t1, t2) l
       /\ e = ((t2T N lens1 (pos_of p1 i s1) t1, s1, t1), (t2T N lens2 (pos_of p2 j s2) t2, s2, t2)).
   Proof.
-    unfold path_intersect. destruct (path_eqb N p1 p2); [discriminate|].
+    unfold Isect.path_intersect. destruct (path_eqb N p1 p2); [discriminate|].
     destruct (collect p1 lens1 p2 lens2 (list_prod (enum p1) (enum p2))) as [l| | |] eqn:E; try discriminate.
     intros R; injection R as <-. intros e He.
     apply dedup_joint_incl in He. rewrite map_map in He. cbn in He. rewrite map_id in He.
@@ -575,15 +639,16 @@ Section PathFacts.
     collect p1 lens1 p2 lens2 (list_prod (enum p1) (enum p2)) = IOk raw ->
     ForallOrdPairs (fun a b => far (seg_point (snd (fst (fst b))) (snd (fst b)))
                                    (seg_point (snd (fst (fst a))) (snd (fst a)))) raw ->
-    path_intersect N seg_isect seg_point tol idx_fixed p1 lens1 p2 lens2 = IOk raw.
+    path_intersect p1 lens1 p2 lens2 = IOk raw.
   Proof.
-    intros Hne E Hfar. unfold path_intersect. rewrite Hne, E. f_equal.
+    intros Hne E Hfar. unfold Isect.path_intersect. rewrite Hne, E. f_equal.
     rewrite dedup_joint_keeps_all.
     - rewrite map_map. cbn. apply map_id.
     - intros q p [].
     - clear -Hfar. induction Hfar as [|a l Hh Ht IH]; cbn; constructor; auto.
       rewrite Forall_forall in *. intros x Hx. apply in_map_iff in Hx.
-      destruct Hx as [b [<- Hb]]. cbn. apply Hh; assumption.
+      destruct Hx as [b [<- Hb]]. cbn [fst]. apply far_not_redundant. unfold Isect.jkey_of. cbn [fst].
+      apply Hh; assumption.
   Qed.
 End PathFacts.
 
